@@ -20,9 +20,10 @@ def main(argv=None):
     if os.path.realpath(root) != os.path.realpath(core.REPO):
         print('machinery failure: pyasn1 imported from %s, expected %s' % (root, core.REPO))
         return core.EXIT_MACHINERY
-    mod = importlib.import_module('harness.checks.' + a.prop.lower())
     if a.replay:
-        return mod.replay(a.replay)
+        from . import replay
+        return replay.replay(a.replay, a.prop.upper())
+    mod = importlib.import_module('harness.checks.' + a.prop.lower())
     ctx = core.Ctx(a.prop.upper(), a.tier, a.seed)
     try:
         mod.run(ctx)
